@@ -15,6 +15,9 @@ import (
 // calledFuncRe matches the name of a called function (not a method: no leading dot).
 var calledFuncRe = regexp.MustCompile(`(?:^|[^\w.])([A-Za-z_]\w*)\s*\(`)
 
+// nameBeforeParenRe matches a name followed by an opening parenthesis; see calledNames.
+var nameBeforeParenRe = regexp.MustCompile(`([A-Za-z_]\w*)\s*\(`)
+
 // ExprEvaluator wraps expr for evaluating boolean and interpolated expressions.
 // It caches compiled programs to avoid recompilation.
 type ExprEvaluator struct {
@@ -61,6 +64,21 @@ func (e *ExprEvaluator) Eval(expression string, env map[string]any) (any, error)
 	return result, nil
 }
 
+// calledNames returns the names that are followed by an opening parenthesis in the expression
+// (functions, not methods), nested calls included.
+func calledNames(expression string) map[string]bool {
+	called := map[string]bool{}
+	for _, loc := range nameBeforeParenRe.FindAllStringSubmatchIndex(expression, -1) {
+		if start := loc[2]; start > 0 {
+			if c := expression[start-1]; c == '.' || c == '_' || c >= '0' && c <= '9' || c >= 'A' && c <= 'Z' || c >= 'a' && c <= 'z' {
+				continue
+			}
+		}
+		called[expression[loc[2]:loc[3]]] = true
+	}
+	return called
+}
+
 // getProgram returns a cached compiled program or compiles a new one.
 func (e *ExprEvaluator) getProgram(expression string) (*vm.Program, error) {
 	e.mu.RLock()
@@ -93,6 +111,14 @@ func (e *ExprEvaluator) getProgram(expression string) (*vm.Program, error) {
 		options = append(options, expr.DisableBuiltin(name))
 	}
 	e.mu.RUnlock()
+	// A built-in of the expression library that this expression does not call is an ordinary
+	// name: data keys such as first, last, max or keys are variables, not functions.
+	called := calledNames(expression)
+	for _, name := range builtin.Names {
+		if !called[name] {
+			options = append(options, expr.DisableBuiltin(name))
+		}
+	}
 	prog, err := expr.Compile(expression, options...)
 	if err != nil {
 		return nil, fmt.Errorf("compile error: %w", err)
